@@ -67,10 +67,14 @@ func (tx *Tx) UnmarshalJSON(b []byte) error {
 // MarshalJSON will convert an input to json, expanding upon the
 // input struct to add additional fields.
 func (i *Input) MarshalJSON() ([]byte, error) {
+	unlockingScript := ""
+	if i.UnlockingScript != nil { // nil until the input is signed
+		unlockingScript = i.UnlockingScript.String()
+	}
 	return json.Marshal(&inputJSON{
 		TxID:            hex.EncodeToString(i.previousTxID),
 		Vout:            i.PreviousTxOutIndex,
-		UnlockingScript: i.UnlockingScript.String(),
+		UnlockingScript: unlockingScript,
 		Sequence:        i.SequenceNumber,
 	})
 }
